@@ -432,7 +432,7 @@ def cascade(b):
         return
 
     def mk_rheo(rec, **over):
-        lay = Obj(None, temperature=R("T_layer"), is_tidal=True, complex_compliances_changed=spy(rec, "layer.complex_compliances_changed"), name="layer")
+        lay = Obj(None, temperature=R("T_layer"), is_tidal=True, is_top_layer=over.pop("is_top_layer", True), layer_index=sp.Integer(0 if over.pop("bottom", True) else 1), complex_compliances_changed=spy(rec, "layer.complex_compliances_changed"), name="layer")
         at = dict(layer=lay, viscosity=R("eta"), shear_modulus=R("mu"), unique_tidal_frequencies=R("freqs"), complex_compliances=R("J"),
                   viscosity_model=Obj(None, calculate=spy(rec, "viscosity_model.calculate")), liquid_viscosity_model=Obj(None, calculate=spy(rec, "liquid_viscosity_model.calculate")),
                   partial_melting_model=Obj(None, calculate=spy(rec, "partial_melting_model.calculate")), complex_compliance_model=Obj(None, calculate=spy(rec, "complex_compliance_model.calculate")),
@@ -445,6 +445,11 @@ def cascade(b):
     run(rheo, "strength_changed", lambda rec: mk_rheo(rec), {}, "strength set",
         [("complex_compliance_model.calculate", None), ("self.complex_compliances_changed", None)],
         "ensures (viscosity and shear modulus set) the complex compliances are recalculated, THEN complex_compliances_changed()")
+    # a single layer's strength update is a complete update: the collapse of the tidal modes must not be deferred to some other layer's update
+    for top_, bottom_ in ((True, False), (False, True), (False, False)):
+        run(rheo, "strength_changed", lambda rec, t_=top_, b_=bottom_: mk_rheo(rec, is_top_layer=t_, bottom=b_), {}, f"strength set;top={int(top_)};bottom={int(bottom_)}",
+            [("complex_compliance_model.calculate", None), ("self.complex_compliances_changed", True)],
+            "ensures the collapse of the tidal modes is requested (collapse_tidal_modes True) whichever layer's strength changed")
     for fl in (True, False):
         run(rheo, "tidal_frequencies_changed", lambda rec: mk_rheo(rec), dict(collapse_tidal_modes=fl), f"collapse={int(fl)}",
             [("complex_compliance_model.calculate", None), ("self.complex_compliances_changed", fl)],
